@@ -50,8 +50,8 @@ struct Gen
             if (maps && r.chance(0.6)) op(OP_SET_SMAP, {h, rnd(3)});
         }
         if (!flags_first) op(OP_SET_FLAGS, {h, fm});
-        if (r.chance(0.7)) op(OP_SET_RHO, {h, rnd(5)});
-        op(OP_SET_K, {h, r.chance(0.3) ? r.range(1, 3) : (r.chance(0.5) ? r.range(4, 16) : r.range(17, 64))});
+        if (r.chance(0.7)) op(OP_SET_RHO, {h, r.chance(0.08) ? 5 + rnd(2) : rnd(5)});
+        op(OP_SET_K, {h, r.chance(0.3) ? r.range(1, 3) : (r.chance(0.5) ? r.range(4, 16) : (r.chance(0.85) ? r.range(17, 64) : r.range(65, 256)))});
     }
     double abort_rate = 0.0; // probability that an evaluation is preceded by a cancelled one on the same workspace
     void eval(int64_t h, int checks, int ws_sel = -1, int xmode = 0, int exmode = -1)
@@ -182,7 +182,7 @@ inline Plan gen_plan(uint64_t seed, uint64_t index, Tier tier, int profile, bool
             double u = r.unit();
             if (u < 0.15) { int64_t hh = g.rnd(2); int64_t nn = r.chance(0.3) ? r.range(1, 2) : g.pick_N(); g.set_init(hh, nn); }
             else if (u < 0.22) g.op(OP_SET_FLAGS, {g.rnd(2), g.rnd(256)});
-            else if (u < 0.3) g.op(OP_WS_COPY, {g.rnd(3), g.rnd(3), g.rnd(2)});
+            else if (u < 0.3) g.op(OP_WS_COPY, {g.rnd(3), g.rnd(3), g.rnd(8)});
             else if (u < 0.33) g.op(OP_SET_K, {g.rnd(2), r.range(1, 64)});
             else if (u < 0.37)
             {
@@ -242,6 +242,7 @@ inline Plan gen_plan(uint64_t seed, uint64_t index, Tier tier, int profile, bool
             else if (u < 0.43) g.op(OP_SELF_ASSIGN, {g.rnd(3)});
             else if (u < 0.53) g.op(OP_DESTROY, {g.rnd(3)});
             else if (u < 0.6) g.op(OP_MUTATE_USER_MAP, {g.rnd(2), g.rnd(3), g.rnd(6)});
+            else if (u < 0.64) { int kk = r.chance(0.5) ? OP_SET_TMAP : OP_SET_SMAP; int64_t hh = g.rnd(3), mm = g.rnd(3); g.op(kk, {hh, mm}); }
             else if (u < 0.68) { int64_t k = g.rnd(3); g.op(OP_CONSTRUCT, {k, g.rnd(3), g.rnd(5), g.rnd(5), g.rnd(4)}); g.configure(k, true); }
             else if (u < 0.74) g.configure(g.rnd(3), true); // source mutation
             else if (u < 0.84) g.op(OP_CONCURRENT, {g.rnd(3), g.rnd(3), g.rnd(2), g.rnd(1u << 30), 1 + g.rnd(2)});
@@ -262,7 +263,8 @@ inline Plan gen_plan(uint64_t seed, uint64_t index, Tier tier, int profile, bool
             if (q == 0 && first_bad >= 0) g.set_init(0, r.range(1, 3), first_bad);
             else if (u < 0.3) g.set_init(hsel, g.pick_N());
             else if (u < 0.75) { int64_t nn = g.pick_N(); int bk = 1 + (int)g.rnd(BAD_N - 1); g.set_init(hsel, nn, bk); }
-            else if (u < 0.85) g.op(OP_VALIDITY, {hsel});
+            else if (u < 0.82) g.op(OP_VALIDITY, {hsel});
+            else if (u < 0.85) { int kk = r.chance(0.6) ? OP_SET_TMAP : OP_SET_SMAP; int64_t mm = g.rnd(3); g.op(kk, {hsel, mm}); } // the verdict must not depend on the maps
             else if (u < 0.9) g.op(OP_COPY, {g.rnd(3), g.rnd(3), g.rnd(1u << 30)});
             else if (u < 0.95) g.op(OP_SET_FLAGS, {hsel, g.rnd(256)});
             else g.eval(hsel, CHK_TWIN);
